@@ -45,10 +45,10 @@ def build():
     extra = ""
     # ---- k_calc
     fn = leaf.load_function(os.path.join(P, "prep.cpp"), "k_calc")
-    leaves.append(fn.leaf("kcalc_lk", lhs="lk", kind="init", vars=K + ["tempk", "LOG_10"], inline={"me": {}}, allow_new_vars=False))
+    leaves.append(fn.leaf("kcalc_lk", lhs="lk", kind="init", vars=K + ["tempk", "LOG_10"], auto_inline=True, allow_new_vars=False))
     leaves.append(fn.leaf("kcalc_dp", lhs="delta_p", kind="init", vars=["presPa"], allow_new_vars=False))
     corr = fn.leaf("kcalc_pcorr", lhs="lk", kind="compound", increment=True, vars=["l_logk[delta_v]", "delta_p", "tempk", "LOG_10"],
-                   inline={"me": {}}, allow_new_vars=False)
+                   auto_inline=True, allow_new_vars=False)
     leaves.append(corr)
     leaves.append(fn.leaf("kcalc_ret", ret=True, vars=["lk"], allow_new_vars=False))
     lk_sites = [s for s in fn.sites if s.lhs == "lk"]
